@@ -2,6 +2,8 @@ SPECIFICATION Spec
 CONSTANTS MaxBr = 2 MaxN = 2 CopyMode = "deep"
   BufSizes <- BufAll
   FillBr = 3
+  ExtraBr = 2
+  Shapes <- QuickShapes
   FillTemplates <- FillFew
   Templates <- AllTemplates
 INVARIANT Isolated
